@@ -81,11 +81,14 @@ def generate(chk):
     errs = []
 
     def work(name):
-        try:
-            out[name] = vlib.tlc_generate(MODULE, "%s.gen.%s.cfg" % (MODULE, name), timeout=1500,
-                                          java_opts="-Xmx3g")
-        except Exception as ex:  # noqa: BLE001
-            errs.append(ex)
+        for attempt in range(2):
+            try:
+                out[name] = vlib.tlc_generate(MODULE, "%s.gen.%s.cfg" % (MODULE, name), timeout=1500,
+                                              java_opts="-Xmx3g")
+                return
+            except Exception as ex:  # noqa: BLE001
+                if attempt == 1:
+                    errs.append(ex)
 
     ths = [threading.Thread(target=work, args=(g[0],)) for g in GEN[chk.tier]]
     for th in ths:
